@@ -66,6 +66,7 @@ class Report:
         self.assumptions = set()
         self.bounded = {}
         self.out_of_reach = []
+        self.dead_paths = []
         self.lemma_obs = 0
         self.solver_time = 0.0
 
@@ -74,7 +75,10 @@ def proof_part(pid, rep: Report, registry, findings):
     from pyvc.verify import verify_function, lemma_obligations
     from pyvc.solve import discharge, model_of
     from pyvc import replay as R
-    infos = [i for i in registry.contracts.values() if pid in i.props]
+    infos = []
+    for i in registry.contracts.values():
+        if pid in i.props and not i.opts.get("assumed") and i not in infos:
+            infos.append(i)
     all_obs = []
     results = []
     for info in infos:
@@ -118,6 +122,9 @@ def proof_part(pid, rep: Report, registry, findings):
             continue
         info = r.info
         n_ok = sum(1 for o in r.obligations if o.status == "discharged")
+        covers = [o for o in r.obligations if o.kind == "cover" and "cover-requires" not in o.name]
+        if covers and not any(o.status == "discharged" for o in covers):
+            rep.undecided.append(f"{info.name}: no feasible path at all (vacuity guard)")
         rep.functions.append({"function": info.name, "obligations": len(r.obligations), "discharged": n_ok,
                               "paths": r.paths, "source_hash": r.source_hash, "gen_s": round(r.gen_time, 2),
                               "excluded_known_classes": getattr(info, "excluded_classes", [])})
@@ -134,8 +141,12 @@ def proof_part(pid, rep: Report, registry, findings):
                 rep.undecided.append(f"{o.name} [{o.where}]: all solvers unknown/timeout")
             elif o.status == "refuted":
                 if o.expect_sat:
-                    # a cover that is unsat: dead path or contradictory precondition
-                    rep.undecided.append(f"{o.name} [{o.where}]: cover obligation unsatisfiable (vacuity guard)")
+                    # a cover that is unsat: contradictory precondition is a checker-level problem;
+                    # a dead individual path (e.g. a callee's redundant re-validation) is only recorded
+                    if "cover-requires" in o.name:
+                        rep.undecided.append(f"{o.name} [{o.where}]: precondition unsatisfiable (vacuity guard)")
+                    else:
+                        rep.dead_paths.append(o.name)
                     continue
                 handle_refuted(pid, rep, r, o)
 
@@ -215,6 +226,7 @@ def emit(rep: Report, level, t0, manifest_note=""):
         "solver_seconds": round(rep.solver_time, 2),
         "lemma_obligations": rep.lemma_obs,
         "undecided": rep.undecided,
+        "dead_paths": rep.dead_paths,
         "known_findings": [h["id"] for h in rep.known_hits],
         "samples": rep.samples + rep.bounded.get("samples", [])[:6],
         "evaluations": int(rep.bounded.get("evaluations", 0)),
